@@ -160,8 +160,21 @@ CORPUS_M = [('python_version >= "3.8" and python_version < "3.10"', True), ('pyt
             ('sys_platform == "linux"', False), ('extra == "a" and python_full_version < "3.9.1" or python_version >= "3.11"', False)]
 
 
+def meeting_ranges() -> list[str]:
+    """two `||` groups whose bounds meet on (or next to) one version, every flag combination, 1-3 component versions: the
+    shapes around "everything but one version"."""
+    out = []
+    for v in ("3.11", "3.9", "3", "3.0", "3.8.1", "3.10.0", "2.7", "4.0"):
+        for lo in ("<", "<="):
+            for hi in (">", ">="):
+                out += [f"{lo}{v} || {hi}{v}", f"{hi}{v} || {lo}{v}"]
+        out += [f"!={v}", f"!={v}.*" if v.count(".") < 2 else f"!={v}", f"<{v} || >{v},<4.0", f">=3.6,<{v} || >{v}"]
+    return sorted(set(out))
+
+
 def correspondence(ctx: core.Ctx) -> None:
     check_ranges(ctx, CORPUS_R, "corpus-ranges")
+    check_ranges(ctx, meeting_ranges(), "meeting-ranges")
     check_markers(ctx, CORPUS_M, "corpus-markers")
     n = ctx.budget(500, 20000)
     ranges = [c11_gen.py_range(ctx.rng) for _ in range(n)]
